@@ -251,4 +251,171 @@ theorem I1.run {s s' : MS} {es : List Ev} (h : I1 s) (hs : MempoolLock.run .v1 s
       rw [he] at hs
       exact ih (h.step he) hs
 
+/-! ## v0 over an asynchronous connection -/
+
+theorem ncbr_of_all_checks (q : List (Bool × Nat)) (h : q.all (fun x => !x.1) = true) :
+    noCheckBeforeRecheck q = true := by
+  induction q with
+  | nil => rfl
+  | cons x r ih =>
+    obtain ⟨b, i⟩ := x
+    simp only [List.all_cons, Bool.and_eq_true] at h
+    cases b with
+    | true => simp at h
+    | false => simpa [noCheckBeforeRecheck] using h.2
+
+theorem ncbr_append_check (q : List (Bool × Nat)) (i : Nat) (h : noCheckBeforeRecheck q = true) :
+    noCheckBeforeRecheck (q ++ [(false, i)]) = true := by
+  induction q with
+  | nil => simp [noCheckBeforeRecheck]
+  | cons x r ih =>
+    obtain ⟨b, j⟩ := x
+    cases b with
+    | true => simpa [noCheckBeforeRecheck] using ih (by simpa [noCheckBeforeRecheck] using h)
+    | false =>
+      simp only [List.cons_append, noCheckBeforeRecheck] at h ⊢
+      simp [List.all_append, h]
+
+theorem ncbr_tail (q : List (Bool × Nat)) (h : noCheckBeforeRecheck q = true) :
+    noCheckBeforeRecheck q.tail = true := by
+  cases q with
+  | nil => rfl
+  | cons x r =>
+    obtain ⟨b, j⟩ := x
+    cases b with
+    | true => simpa [noCheckBeforeRecheck] using h
+    | false => exact ncbr_of_all_checks r (by simpa [noCheckBeforeRecheck] using h)
+
+theorem ncbr_rechecks (l : List Nat) : noCheckBeforeRecheck (l.map fun k => (true, k)) = true := by
+  induction l with
+  | nil => rfl
+  | cons k r ih => simpa [noCheckBeforeRecheck] using ih
+
+/-- invariant of v0 over an asynchronous connection: the committer's gate states hold the write
+lock; the commit is requested only on a drained connection; every in-flight checker is in the
+queue; no new check is queued in front of a recheck -/
+structure IA (s : MS) : Prop where
+  cw : holds s.cpc = true → s.writer = true
+  cq : s.cpc = .commitGate → s.queue = []
+  fl : ∀ p ∈ s.chk, p.2 = .atGate → (false, p.1) ∈ s.queue
+  ord : noCheckBeforeRecheck s.queue = true
+  re : s.rechecks = []
+  nrg : ∀ a b, s.cpc ≠ .recheckGate a b
+
+theorem mem_setL {l : List (Nat × KPC)} {i : Nat} {k : KPC} {p : Nat × KPC} (h : p ∈ setL l i k) :
+    (p = (i, k)) ∨ (p ∈ l ∧ p.1 ≠ i) := by
+  simp only [setL, List.mem_map] at h
+  obtain ⟨q, hq, rfl⟩ := h
+  by_cases hqi : q.1 = i
+  · left; simp [hqi]
+  · right; simp [hqi, hq]
+
+theorem IA.step {s s' : MS} {e : Ev} (h : IA s) (hs : MempoolLock.step .v0a s e = some s') : IA s' := by
+  cases e <;> simp only [MempoolLock.step] at hs
+  case spawnCheck i =>
+    split at hs <;> cases hs
+    refine ⟨h.cw, h.cq, ?_, h.ord, h.re, h.nrg⟩
+    intro p hp hg
+    rcases List.mem_append.mp hp with hp | hp
+    · exact h.fl p hp hg
+    · simp at hp; subst hp; simp at hg
+  case prelude i =>
+    split at hs <;> cases hs
+    rename_i hk
+    refine ⟨h.cw, ?_, ?_, ncbr_append_check _ _ h.ord, h.re, h.nrg⟩
+    · intro hc
+      have hc' : s.cpc = .commitGate := hc
+      have := h.cw (by simp [hc', holds])
+      simp [hk.2] at this
+    · intro p hp hg
+      rcases mem_setL (by simpa [setK_chk] using hp) with rfl | ⟨hp', _⟩
+      · simp
+      · exact List.mem_append_left _ (h.fl p hp' hg)
+  case relCheck i =>
+    split at hs
+    · split at hs
+      · rename_i hk hq
+        cases hs
+        refine ⟨h.cw, ?_, ?_, ncbr_tail _ h.ord, h.re, h.nrg⟩
+        · intro hc
+          have := h.cq hc
+          simp [this]
+        · intro p hp hg
+          rcases mem_setL (by simpa [setK_chk] using hp) with rfl | ⟨hp', hne⟩
+          · simp at hg
+          · have hm := h.fl p hp' hg
+            cases hqq : s.queue with
+            | nil => simp [hqq] at hm
+            | cons x r =>
+              rw [hqq] at hm hq
+              simp only [List.head?_cons, Option.some.injEq] at hq
+              subst hq
+              simp only [List.mem_cons, Prod.mk.injEq, true_and] at hm
+              rcases hm with hm | hm
+              · exact absurd hm hne
+              · simpa using hm
+      · cases hs
+    · cases hs
+  case addCheck i => simp at hs
+  case spawnCommit =>
+    split at hs <;> cases hs
+    exact ⟨by simp [holds], by simp, h.fl, h.ord, h.re, by simp⟩
+  case lockCommit =>
+    split at hs <;> cases hs
+    exact ⟨by simp, by simp, h.fl, h.ord, h.re, by simp⟩
+  case relFlush =>
+    split at hs
+    · rename_i hk
+      split at hs
+      · rename_i hq
+        cases hs
+        exact ⟨fun _ => h.cw (by simp [hk, holds]), fun _ => hq, h.fl, h.ord, h.re, by simp⟩
+      · cases hs
+    · cases hs
+  case relockCommit => simp at hs
+  case relCommit =>
+    split at hs <;> cases hs
+    rename_i hk
+    have hq := h.cq hk
+    refine ⟨by simp [holds], by simp, ?_, ?_, h.re, by simp⟩
+    · intro p hp hg
+      have := h.fl p hp hg
+      simp [hq] at this
+    · show noCheckBeforeRecheck (s.queue ++ _) = true
+      rw [hq, List.nil_append]
+      have := ncbr_rechecks ((List.range s.pool).map (· + s.nextRecheck))
+      rw [List.map_map] at this
+      exact this
+  case relRecheck j =>
+    split at hs <;> cases hs
+    refine ⟨h.cw, ?_, ?_, ncbr_tail _ h.ord, h.re, h.nrg⟩
+    · intro hc
+      have := h.cq hc
+      simp [this]
+    · intro p hp hg
+      rename_i hq
+      have hm := h.fl p hp hg
+      cases hqq : s.queue with
+      | nil => simp [hqq] at hm
+      | cons x r =>
+        rw [hqq] at hm hq
+        simp only [List.head?_cons, Option.some.injEq] at hq
+        subst hq
+        simpa using hm
+  case handleRecheck => simp at hs
+
+theorem IA.run {s s' : MS} {es : List Ev} (h : IA s) (hs : MempoolLock.run .v0a s es = some s') : IA s' := by
+  induction es generalizing s with
+  | nil => simp [MempoolLock.run] at hs; subst hs; exact h
+  | cons e es ih =>
+    simp only [MempoolLock.run] at hs
+    cases he : MempoolLock.step .v0a s e with
+    | none => simp [he] at hs
+    | some s1 =>
+      rw [he] at hs
+      exact ih (h.step he) hs
+
+theorem IA.init (p : Nat) : IA { pool := p } :=
+  ⟨by simp [holds], by simp, by simp, rfl, rfl, by simp⟩
+
 end Tmv.MempoolLock
